@@ -25,7 +25,11 @@ C = dict(
     rule="plans = complete histories of DropMsgMeta.tla (exhaustive for the small configuration, TLC -simulate for the "
          "large one); a trace is non-trivial if at least one report left a recorded entry; distinct = distinct event sequences",
     assumptions=[
-        "store = in-memory api.ReplicateStore whose failures have no effect (fail-before); thorough tier adds nothing on etcd yet",
+        "store = in-memory api.ReplicateStore whose failures have no effect (fail-before), and for a sample of the plans the "
+        "production core/meta.EtcdReplicateStore on an embedded etcd behind a fail-before decorator (dump = raw range read of the "
+        "whole etcd incl. a neighbour root that has the own root as string prefix)",
+        "every plan is replayed with the model names as ids and once more with adversarial ids (message and task ids in prefix "
+        "relation, target channels listed in shard order that is not lexicographic order)",
         "after a FAILED update memory may be ahead of the store (the statement speaks about updates that happened); "
         "the contract then only bounds both by the reports",
         "concurrent reports: two goroutines, the store's Put is gated; when the implementation serialises the reports (as built: "
@@ -35,7 +39,35 @@ C = dict(
 )
 
 
+# concrete ids for the model names: message ids (and task ids) in prefix relation, channel names whose lexicographic order
+# differs from the shard order in which a collection lists its target channels
+NAMES = {"t1": "k1", "t2": "k10", "c1": "m4", "c2": "m44", "p1": "m441", "p2": "m4410",
+         "v1": "dml_9", "v2": "dml_10", "v3": "dml_8"}
+
+
+def expand(plans, tier):
+    """every plan once more with the adversarial names on the in-memory store; a sample on the production
+    EtcdReplicateStore (embedded etcd, raw range dump, neighbour root with the own root as string prefix)"""
+    from lib import vlib
+    out = list(plans)
+    for q in plans:
+        v = dict(q, plan=q["plan"] + "~n", params=dict(q.get("params") or {}, names=NAMES))
+        out.append(v)
+    cand = [q for q in plans if q.get("src") != "par"] + [q for q in plans if q.get("src") == "par"][:20]
+    cap = 500 if tier == "quick" else 8000
+    if len(cand) > cap:
+        directed = [q for q in cand if q.get("src") == "directed"]
+        cand = directed + vlib.sample(sorted([q for q in cand if q.get("src") != "directed"], key=lambda x: x["plan"]), cap - len(directed))
+    for i, q in enumerate(cand):
+        pr = dict(q.get("params") or {}, store="etcd")
+        if i % 4 != 3:          # three of four with the adversarial names
+            pr["names"] = NAMES
+        out.append(dict(q, plan=q["plan"] + "~e", params=pr))
+    return out
+
+
 def run(tier, replay=None):
+    C["expand_plans"] = expand
     if not replay:
         from lib import vlib
         r = vlib.run_tlc("DropMsgMeta", "DropMsgMeta_Unlocked.cfg", workers=4, timeout=300)
